@@ -1,0 +1,10 @@
+//go:build verif
+
+package statsd
+
+import "time"
+
+// VerifSetNow replaces the aggregator's time source.
+func (a *MetricAggregator) VerifSetNow(now func() time.Time) {
+	a.now = now
+}
